@@ -501,7 +501,7 @@ def run(prog, tier):
                            function=f.sig, expr='ctor')
                 else:
                     res.viol('trimmed-name', 'naming constructor of %s' % q.split('::')[-1], f.loc(), 'constructor ignores its name argument', function=f.sig, expr='ctor')
-    res.minimum('stores to Point::_name / Channel::_name', nstores, 4)
+    res.minimum('stores to Point::_name / Channel::_name', nstores, 2)
     check_trimmer(prog, res)
     return res
 
